@@ -147,6 +147,9 @@ HASHES = [0, 0, 1, 1, 2, 3, 4, 5, 7, 8, 9, 16, 17, 2048, 2049, 4096, 1 << 22, (1
           0x80000000, 12345, 99991]
 
 
+MIRHASH = {}   # seed -> hash values of keys 0..63 computed by the repo's mir_hash (filled in by run())
+
+
 def gen_htab(rng, nops):
     """random script; hash table chosen to force collisions / value 0 / high bits (peterb); phases that fill the
     element array (els_bound == els_size => rebuild) and delete + re-insert (tombstone reuse, compaction)"""
@@ -159,6 +162,8 @@ def gen_htab(rng, nops):
     elif mode < 0.75:
         m = rng.choice([4, 8, 16])
         table = [rng.randrange(4) * m + rng.choice([0, 0, 1]) for _ in range(nkeys)]   # same low bits
+    elif mode < 0.87 and MIRHASH:
+        table = MIRHASH[rng.choice(sorted(MIRHASH))][:nkeys]          # the repo's own hash function
     else:
         table = [rng.randrange(1 << 32) for _ in range(nkeys)]
     min_size = rng.choice([0, 1, 2, 3, 4, 5, 8])
@@ -447,6 +452,10 @@ def script_stream(chk):
 def run(chk):
     r = chk.prove()
     impl, model = build()
+    rc, out, _ = vlib.run_lines(impl, ['hash 64 %d :' % sd for sd in (0, 42, 2024)])
+    if rc == 0 and len(out) == 3:
+        for sd, l in zip((0, 42, 2024), out):
+            MIRHASH[sd] = [int(x) for x in l.split()]
     chk.cov['trusted_base'] += ['extraction: ExtrOcamlBasic only, no Extract Constant/Inductive of our own',
                                 'ocaml/driver_c19.ml, harness/c19_adt.c (parse + print only)']
     chk.cov['rule'] = ('op scripts (corpus, seeded random biased to word boundaries / aliasing, exhaustive sweeps) run on '
@@ -486,6 +495,15 @@ def run(chk):
                 break
     flush()
     chk.log('%d scripts, %d disagreements' % (nscripts, len(bad)))
+    if chk.tier == 'thorough' and not bad:
+        # same random scripts on an ASan+UBSan build of the harness: out-of-bounds / use-after-realloc
+        # in the headers shows up as a CRASH line even where the values happen to agree
+        impl_asan = vlib.build_harness('c19_adt', ['c19_adt.c'], variant='asan', units=())
+        rs = [s for o, s in script_stream(chk) if o in ('random', 'corpus')][:40000]
+        for i in range(0, len(rs), 4000):
+            bad.extend(run_both(impl_asan, model, rs[i:i + 4000]))
+        chk.dist('origin', 'asan-rerun', len(rs))
+        chk.log('asan rerun of %d scripts, %d disagreements' % (len(rs), len(bad)))
     diffs = [b for b in bad if b[3] == 'diff']
     books = [b for b in bad if b[3] == 'book']
     seen = set()
